@@ -45,6 +45,10 @@ type c09Case struct {
 	// Hold0: the remote's OPEN proposes hold time 0 (no session timers); every
 	// cell of the table must read the same
 	Hold0 bool `json:"hold0,omitempty"`
+	// OpenVar: the unexpected OPEN (OpenConfirm / Established only) is well-formed but
+	// would be unacceptable as a first OPEN: "version" (3), "as" (another AS), "hold"
+	// (hold time 1), "id" (identifier 0). It is still a message of type OPEN.
+	OpenVar string `json:"open_var,omitempty"`
 }
 
 var stimTypes = map[string]uint8{"open": 1, "update": 2, "notification": 3, "keepalive": 4}
@@ -67,7 +71,7 @@ func c09Prop(t *testing.T, r *hx.Run, sub string) func(c c09Case) hx.Verdict {
 			dir = "out"
 		}
 		v := hx.Verdict{Class: fmt.Sprintf("%s/%s/%s", c.State, c.Stim, dir)}
-		v.NT = fmt.Sprintf("%s/%s/%s/%v/%x/%d/%d/%v/%d/%v/%v", c.State, c.Stim, dir, c.Notif, []byte(c.Raw), c.UpdLen, c.Hold, c.Prev, c.Partial, c.Busy, c.ThenFin) + fmt.Sprint(c.Hold0)
+		v.NT = fmt.Sprintf("%s/%s/%s/%v/%x/%d/%d/%v/%d/%v/%v", c.State, c.Stim, dir, c.Notif, []byte(c.Raw), c.UpdLen, c.Hold, c.Prev, c.Partial, c.Busy, c.ThenFin) + fmt.Sprint(c.Hold0) + c.OpenVar
 		p := basePeer(c.Out)
 		var dev *hx.Dev
 		fail := func(key, f string, a ...any) {
@@ -177,7 +181,20 @@ func c09Prop(t *testing.T, r *hx.Run, sub string) func(c c09Case) hx.Verdict {
 					if hold == 0 {
 						hold = 90
 					}
-					stim = world.RemoteOpen(p, conn, hold, 0x0a000002).Frame()
+					o := world.RemoteOpen(p, conn, hold, 0x0a000002)
+					if c.State != stOpenSent {
+						switch c.OpenVar {
+						case "version":
+							o.Version = 3
+						case "as":
+							o.AS2 ^= 0x0101
+						case "hold":
+							o.Hold = 1
+						case "id":
+							o.ID = 0
+						}
+					}
+					stim = o.Frame()
 				case "update":
 					stim = wire.Frame(wire.TypeUpdate, updBody)
 				case "keepalive":
@@ -362,6 +379,15 @@ func TestC09(t *testing.T) {
 							if !yield(c3) {
 								return
 							}
+							if s == "open" && st != stOpenSent {
+								for _, ov := range []string{"version", "as", "hold", "id"} {
+									c4 := c
+									c4.OpenVar = ov
+									if !yield(c4) {
+										return
+									}
+								}
+							}
 						}
 						if s != "fin" && s != "rst" && len(prev) < 2 {
 							for _, bf := range [][2]bool{{true, false}, {false, true}, {true, true}} {
@@ -417,6 +443,7 @@ func TestC09(t *testing.T) {
 			c.UpdLen = pick(rt, "ulen", 0, 1, 4, 23, 4077, rapid.IntRange(0, 4077).Draw(rt, "ulenr"))
 		case "open":
 			c.Hold = pick[uint16](rt, "hold", 90, 3, 0, 65535)
+			c.OpenVar = pick(rt, "openvar", "", "", "version", "as", "hold", "id")
 		}
 		if c.Stim != "fin" && c.Stim != "rst" {
 			c.Cuts = genCuts(rt, 19+c.UpdLen+40)
